@@ -60,6 +60,8 @@ type StreamPlan struct {
 	ErrMsg    string
 	ThenFIN   bool
 	Invalid   []byte // invalid-event payload
+	Second    bool   // a second, short malformed packet follows the injected one at once
+	Invalid2  []byte
 	BadType   byte   // unsupported event type
 	SeqDelta  int    // bad-seq: +1 (skipped) or -1 (repeated)
 	Heartbeat int    // 1/n chance of a heartbeat at each unit boundary (0 = none)
@@ -397,6 +399,9 @@ func (m *simMaster) startDump(d *DumpReq, seq byte) {
 			m.tail = stopFIN
 		}
 	case stopInvalidEvent:
+		if p.Second {
+			insert(wirePacket{payload: append([]byte{0}, p.Invalid2...), kind: "invalid2"})
+		}
 		insert(wirePacket{payload: append([]byte{0}, p.Invalid...), kind: "invalid"})
 	case stopUnsupportedEvent:
 		var body []byte
@@ -417,6 +422,9 @@ func (m *simMaster) startDump(d *DumpReq, seq byte) {
 			}
 		}
 		raw := encodeEvent(1500000000, p.BadType, h.Cfg.MasterID, 0, 0, body, ckAt)
+		if p.Second {
+			insert(wirePacket{payload: append([]byte{0}, p.Invalid2...), kind: "invalid2"})
+		}
 		insert(wirePacket{payload: append([]byte{0}, raw...), kind: "unsupported"})
 	}
 	// serialise
